@@ -103,6 +103,37 @@ theorem ensureItems_nodup (ns : List String) : ∀ (st : St), NoDup st → NoDup
         intro hin
         exact hn ((hasName_iff st _).mpr hin)
 
+theorem set4_name (q : Rec) (v : String) (h : q.rt = .L) : ({ q with fields := q.fields.set 4 v } : Rec).name = q.name := by
+  unfold Rec.name
+  simp only [h, List.drop_set_of_lt (show 4 < 5 by decide)]
+
+theorem adoptOverlap_name (s : Link) (q : Rec) : (adoptOverlap s q).name = q.name := by
+  unfold adoptOverlap
+  split
+  · rename_i k hk
+    split
+    · exact set4_name q _ (by
+        unfold Rec.linkOf at hk
+        split at hk
+        · rename_i hrt; exact hrt
+        · cases hk)
+    · rfl
+  · rfl
+
+/-- replacing a record by one with the same identifier leaves the list of identifiers as it was -/
+theorem namesOf_set (ls : List Rec) (i : Nat) (r : Rec) (hi : i < ls.length) (hr : r.name = (ls.getD i default).name) :
+    namesOf (ls.set i r) = namesOf ls := by
+  induction ls generalizing i with
+  | nil => simp at hi
+  | cons x xs ih =>
+    cases i with
+    | zero => simp [namesOf, List.filterMap_cons] at hr ⊢; rw [hr]
+    | succ j =>
+      simp only [List.set_cons_succ, namesOf, List.filterMap_cons]
+      have := ih j (by simpa using hi) (by simpa using hr)
+      simp only [namesOf] at this
+      rw [this]
+
 theorem ensureLinks_nodup (ls : List Link) : ∀ (st st' : St), NoDup st → ensureLinks st ls = .ok st' → NoDup st' := by
   induction ls with
   | nil => intro st st' h he; simp [ensureLinks] at he; cases he; exact h
@@ -115,7 +146,15 @@ theorem ensureLinks_nodup (ls : List Link) : ∀ (st st' : St), NoDup st → ens
       simp only [h1, Except.bind] at he
       have hn1 := ensureSegs_nodup _ st st1 h h1
       split at he
-      · exact ih st1 st' hn1 he
+      · rename_i i hfound
+        apply ih _ st' _ he
+        -- a placeholder link that adopts an overlap keeps (having none) its identifier
+        unfold NoDup at *
+        rw [names_eq] at *
+        simp only []
+        have hi : i < st1.lines.length := (findIdx_some_lt _ _ _ hfound).1
+        rw [namesOf_set _ _ _ hi (adoptOverlap_name l _)]
+        exact hn1
       · apply ih _ st' _ he
         apply nodup_append_rec st1 _ hn1
         intro m hm; rw [virtLink_name] at hm; cases hm
@@ -303,9 +342,8 @@ theorem kept_sublist (ls : List Rec) (dead : List Nat) :
   rw [h3] at h2
   exact h2
 
-/-- **removing lines keeps the identifiers distinct** -/
-theorem rmIdx_nodup (st : St) (seed : List Nat) (h : NoDup st) : NoDup (rmIdx st seed) := by
-  unfold NoDup rmIdx at *
+theorem rmCore_nodup (st : St) (seed : List Nat) (h : NoDup st) : NoDup (rmCore st seed) := by
+  unfold NoDup rmCore at *
   rw [names_eq] at *
   simp only []
   have hmap : ∀ (ks : List Rec) (gone : List String), namesOf (ks.map (dropItems gone)) = namesOf ks := by
@@ -317,6 +355,41 @@ theorem rmIdx_nodup (st : St) (seed : List Nat) (h : NoDup st) : NoDup (rmIdx st
   rw [hmap]
   have hs := kept_sublist st.lines (cascade st seed)
   exact (hs.filterMap Rec.name).nodup h
+
+theorem resetPlaceholder_name (lines : List Rec) (p : Rec × Nat) : (resetPlaceholder lines p).name = p.1.name := by
+  unfold resetPlaceholder
+  split
+  · rename_i h
+    simp only [Bool.and_eq_true, beq_iff_eq] at h
+    exact set4_name p.1 _ h.1.1.2
+  · rfl
+
+theorem filterMap_congr0 {α β} (l : List α) (f g : α → Option β) (h : ∀ x ∈ l, f x = g x) :
+    l.filterMap f = l.filterMap g := by
+  induction l with
+  | nil => rfl
+  | cons x xs ih =>
+    simp only [List.filterMap_cons, h x (by simp), ih (fun y hy => h y (by simp [hy]))]
+
+theorem namesOf_zipIdx_map (ls : List Rec) (f : Rec × Nat → Rec) (hf : ∀ p, (f p).name = p.1.name) :
+    namesOf (ls.zipIdx.map f) = namesOf ls := by
+  have h3 : ls.zipIdx.map (·.1) = ls := by simp [List.zipIdx_eq_zip_range', List.map_fst_zip]
+  conv => rhs; rw [← h3]
+  simp only [namesOf, List.filterMap_map]
+  apply filterMap_congr0
+  intro p _
+  simp [hf p]
+
+theorem resetAll_nodup (st : St) (h : NoDup st) : NoDup (resetAll st) := by
+  unfold NoDup resetAll at *
+  rw [names_eq] at *
+  simp only []
+  rw [namesOf_zipIdx_map _ _ (resetPlaceholder_name st.lines)]
+  exact h
+
+/-- **removing lines keeps the identifiers distinct** -/
+theorem rmIdx_nodup (st : St) (seed : List Nat) (h : NoDup st) : NoDup (rmIdx st seed) :=
+  resetAll_nodup _ (rmCore_nodup st seed h)
 
 theorem rm_nodup (st st' : St) (n : String) (h : NoDup st) (he : rm st n = .ok st') : NoDup st' := by
   unfold rm at he
